@@ -47,10 +47,10 @@ def run(P, rep, tier):
         "str-typed path arguments are the only way to address a node by name (h5py/IH5 object arguments are already-wrapped nodes)",
     ]
     ctx = Ctx(P)
-    r1_protocol(P, rep, ctx)
-    r2_taint(P, rep, ctx)
-    r3_listings(P, rep, ctx)
-    r4_predicates(P, rep, ctx)
+    rep.attempt(r1_protocol, P, rep, ctx)
+    rep.attempt(r2_taint, P, rep, ctx)
+    rep.attempt(r3_listings, P, rep, ctx)
+    rep.attempt(r4_predicates, P, rep, ctx)
     rep.floor("C08.R1", 25, "protocol members")
     rep.floor("C08.R2", 12, "tainted flows")
     rep.floor("C08.R3", 8)
